@@ -16,6 +16,7 @@ import (
 	"flag"
 	"fmt"
 	"os"
+	"runtime"
 	"runtime/debug"
 	"runtime/pprof"
 	"strings"
@@ -28,16 +29,19 @@ import (
 
 func main() {
 	fams := flag.String("fams", "", "comma-separated family names (default all)")
-	kflag := flag.Int("k", 0, "max sequence length (default 4 quick / 6 thorough)")
-	nflag := flag.Int("n", 0, "menu size (default 6 quick / all thorough)")
+	kflag := flag.Int("k", 0, "max sequence length (default 4 quick / 5 thorough)")
+	nflag := flag.Int("n", 0, "menu size (default 4 quick / 8 thorough; menus have 12 ops)")
 	nomemo := flag.Bool("nomemo", false, "disable state memoisation")
 	gcp := flag.Int("gc", 30, "GC percent")
 	r := vk.New("model_checking")
 	debug.SetGCPercent(*gcp)
-	r.SetBudget(150*time.Second, 25*time.Minute)
-	k, n := 4, 6
+	r.SetBudget(240*time.Second, 25*time.Minute)
+	if r.Quick() && runtime.GOMAXPROCS(0) > 8 {
+		runtime.GOMAXPROCS(8) // one chain per worker costs ~4 CPU-s to create: 8 workers keep the quick tier within ~150 CPU-s
+	}
+	k, n := 4, 4
 	if r.Thorough() {
-		k, n = 6, 12
+		k, n = 5, 8
 	}
 	if *kflag > 0 {
 		k = *kflag
@@ -50,14 +54,16 @@ func main() {
 		if *fams != "" && !strings.Contains(","+*fams+",", ","+f.Name+",") {
 			continue
 		}
-		if len(f.Ops) > n {
-			f.Ops = f.Ops[:n]
+		fn := n
+		if r.Quick() && *nflag == 0 && f.QuickN > 0 {
+			fn = f.QuickN
+		}
+		if len(f.Ops) > fn {
+			f.Ops = f.Ops[:fn]
 		}
 		sel = append(sel, f)
 	}
-	gc := rx.NewGraphCheckers()
 	x := &rx.Explorer{R: r, Fams: sel, K: k, ColdDump: true, Memo: !*nomemo}
-	_ = gc
 	if pf := os.Getenv("VERIF_CPUPROFILE"); pf != "" {
 		f, _ := os.Create(pf)
 		pprof.StartCPUProfile(f)
@@ -81,8 +87,13 @@ func main() {
 		names = append(names, fmt.Sprintf("%s(%s)", f.Name, f.Ops))
 	}
 	r.Sample(map[string]any{"families": names, "k": k})
-	r.Finish("all op sequences <= k x all cuts into transactions", !r.Capped(), map[string]any{
+	r.Assumptions = []string{
+		"reference = the same logic file run by the real GnoVM in one in-memory machine without any store (rx.MemVM); native Go is a third opinion whose differences are reported as observations (Go/Gno language differences are C04's subject)",
+		"state memoisation: the subtree below a history is skipped when the persisted bytes of the realm (all objects + realm record) equal those of a history already expanded with at least the same remaining depth in the same task; the cold-dump transaction is run once per distinct persisted state per task (a transaction is a deterministic function of the store)",
+		"snapshots between transactions use a cache-wrapped deliver state (chainx.Push); every reported deviation is first reproduced on a fresh chain with one committed block per transaction",
+	}
+	r.Finish(fmt.Sprintf("per realm family (%d families, menu of %d ops): all op sequences of length <= %d x every cut of the sequence into transactions (each tx one MsgCall via DeliverTx) + cold re-dump after every tx + every sequence <= %d as one MsgRun with a crossing call per op; oracle: op return strings and canonical Dump() equal to the in-memory GnoVM run; distinct = distinct transaction histories", len(sel), n, k, k-1), !r.Capped(), map[string]any{
 		"states": x.States.Load(), "transitions": x.Txs.Load(), "traces_validated_against_impl": x.Txs.Load(), "depth": k,
-		"histories": x.Nodes.Load(), "memo_hits": x.MemoHits.Load(), "go_vs_gno_in_memory_differences": gd,
+		"histories": x.Nodes.Load(), "memo_hits": x.MemoHits.Load(), "cold_dump_memo_hits": x.ColdHits.Load(), "msgrun_scripts": x.RunTxs.Load(), "menu_size": n, "go_vs_gno_in_memory_differences": gd,
 	})
 }
